@@ -29,6 +29,7 @@ RESULT_SPELLINGS = [
     ('Res<i32>', True),
     ('Result<i32, errs::Failure>', True),
     ('Result<std::vec::Vec<u8>, std::string::String>', True),
+    ('(Result<i32, String>)', True),
 ]
 PLAIN_RETURNS = [('i32', False), ('String', False), ('Vec<u8>', False), ('Option<i32>', False), ('', False),
                  ('(i32, String)', False)]
